@@ -933,17 +933,17 @@ class PDSLabelEncoder(ODLEncoder):
 
         if grp_count > 0 and obj_count < 1:
             if self.convert_group_to_object:
-                for k, v in module.items():
+                for i, (k, v) in enumerate(list(module.items())):
                     # First try to convert any GROUPs that would not
                     # be valid PDS GROUPs.
                     if isinstance(v, self.grpcls) and not self.is_PDSgroup(v):
-                        module[k] = self.objcls(v)
+                        self._replace_item(module, i, k, self.objcls(v))
                         break
                 else:
                     # Then just convert the first GROUP
-                    for k, v in module.items():
+                    for i, (k, v) in enumerate(list(module.items())):
                         if isinstance(v, self.grpcls):
-                            module[k] = self.objcls(v)
+                            self._replace_item(module, i, k, self.objcls(v))
                             break
                     else:
                         raise ValueError(
@@ -964,6 +964,22 @@ class PDSLabelEncoder(ODLEncoder):
             return s.replace("\t", (" " * self.tab_replace))
         else:
             return s
+
+    @staticmethod
+    def _replace_item(module: abc.MutableMapping, index: int, key, value):
+        """Replaces the item at position *index* of *module*, in place.
+
+        Plain item assignment (``module[key] = value``) is not used
+        because on a multi-dict it also drops every later item that
+        has the same key.
+        """
+        items = list(module.items())
+        items[index] = (key, value)
+        module.clear()
+        if hasattr(module, "extend"):
+            module.extend(items)
+        else:
+            module.update(items)
 
     def is_PDSgroup(self, group: abc.Mapping) -> bool:
         """Returns true if the dict-like *group* qualifies as a PDS Group,
